@@ -17,7 +17,7 @@ type c04 struct{}
 func init() { Props["C04"] = &c04{} }
 
 func (c *c04) Rule() string {
-	return "seeded histories: 1-4 tasks x 1-8 detections through Detect/DetectReader/DetectFile over pool-dirtying (valid, truncated, malformed, query-hitting, >128-deep, cap-deep JSON; NDJSON with a bad line; ragged and >4 KiB CSV), limit-sensitive, charset-bearing and binary inputs, tail-mutated twins (same header, different bytes beyond the limit), failing readers and shared caller buffers, under a per-run limit (single-task runs also change the limit between calls) and a per-run pool policy (lifo/fifo/adversarial/steal) whose every Get decision is recorded; each result is compared with the same build's answer for that header from a fresh pool with no history. Non-trivial = a recycled pooled object was served during the run; distinct = distinct (operation shapes, pool decision sequence, schedule conflict signature) hashes"
+	return "seeded histories: 1-4 tasks x 1-8 detections through Detect/DetectReader/DetectFile over pool-dirtying (valid, truncated, malformed, query-hitting, >128-deep, cap-deep JSON; NDJSON with a bad line; ragged and >4 KiB CSV), limit-sensitive, charset-bearing and binary inputs, tail-mutated twins (same header, different bytes beyond the limit), failing readers and shared and reused caller buffers (same address, new content), sibling inputs (same family and size, other variant), under a per-run limit (single-task runs also change the limit between calls) and a per-run pool policy (lifo/fifo/adversarial/steal) whose every Get decision is recorded; each result is compared with the same build's answer for that header from a fresh pool with no history. Non-trivial = a recycled pooled object was served during the run; distinct = distinct (operation shapes, pool decision sequence, schedule conflict signature) hashes"
 }
 
 var c04Limits = []uint32{3072, 3072, 3072, 0, 0, 1, 16, 64, 100, 1000, 4096, 8192, 70000}
@@ -112,6 +112,23 @@ func (c *c04) Plan(seed uint64, tier string, worker, workers, idx int) *Plan {
 	for i := range cast {
 		cast[i] = c04Input(r)
 	}
+	// siblings: same family and size, other variant / position / filler - what a
+	// memo keyed too coarsely (by length, by the first bytes, by the buffer's
+	// address) cannot tell apart
+	for i, n := 0, len(cast); i < n; i++ {
+		if r.Chance(1, 3) {
+			sib := cast[i]
+			switch r.Intn(3) {
+			case 0:
+				sib.V++
+			case 1:
+				sib.Seed++
+			default:
+				sib.V, sib.P = sib.V+1, sib.P+1
+			}
+			cast = append(cast, sib)
+		}
+	}
 	// tail twins: same header, different bytes beyond the limit
 	if p.Limit0 > 0 {
 		for tries := 0; tries < 4; tries++ {
@@ -132,6 +149,7 @@ func (c *c04) Plan(seed uint64, tier string, worker, workers, idx int) *Plan {
 	}
 	for t := 0; t < nt; t++ {
 		var ops []Op
+		reuse := r.Chance(1, 3) // this caller reads every input into one buffer
 		for i, n := 0, r.Range(1, 8); i < n; i++ {
 			in := cast[r.Intn(len(cast))]
 			op := Op{In: &in}
@@ -142,6 +160,8 @@ func (c *c04) Plan(seed uint64, tier string, worker, workers, idx int) *Plan {
 					k := r.Intn(len(p.Shared))
 					sh := p.Shared[k]
 					op.In, op.Shared = &sh, k+1
+				} else if reuse {
+					op.Reuse = true
 				}
 			case e < 17:
 				op.Kind = "reader"
@@ -214,6 +234,9 @@ func (c *c04) Check(rr *RunResult, st *Stats) []Failure {
 			}
 			if op.Shared > 0 {
 				st.Probe("shared_caller_buffer_detected")
+			}
+			if op.Reuse {
+				st.Probe("reused_caller_buffer_detected")
 			}
 		}
 	}
